@@ -16,6 +16,9 @@
 //     AI k i..                   getAllIndices()
 //     DEPTH d                    getDepth()
 //     F ti qi f0 f1 sumQ         computeNonEdgeForces(qi, theta[ti], {0,0}, 0)
+//     P ci k i..                 (only when the case line ends with the token P) for the cell with preorder number ci:
+//                                the k data indices i whose point the REAL Cell::containsPoint of that cell's
+//                                boundary accepts (all n data points are asked, inserted or not)
 //     END
 //     G id n x0 y0 ...  theta deg        -> "D i dC0 dC1" per point (TSNE::computeGradient), "E C" (TSNE::evaluateError)
 #include <algorithm>
@@ -104,6 +107,29 @@ static void dump(QuadTree* t, int depth)
         dump(t->northEast, depth + 1);
         dump(t->southWest, depth + 1);
         dump(t->southEast, depth + 1);
+    }
+}
+
+// the real containsPoint of every cell on every data point (compared with the binary64 model QuadTree_Float_Model.v)
+static void contains_matrix(QuadTree* t, int depth, double* data, int n, long* ci)
+{
+    if (t == NULL || depth > 3000)
+        return;
+    long me = (*ci)++;
+    std::vector<int> acc;
+    for (int i = 0; i < n; i++)
+        if (t->boundary.containsPoint(data + 2 * i))
+            acc.push_back(i);
+    printf("P %ld %d", me, (int)acc.size());
+    for (size_t k = 0; k < acc.size(); k++)
+        printf(" %d", acc[k]);
+    printf("\n");
+    if (!t->is_leaf)
+    {
+        contains_matrix(t->northWest, depth + 1, data, n, ci);
+        contains_matrix(t->northEast, depth + 1, data, n, ci);
+        contains_matrix(t->southWest, depth + 1, data, n, ci);
+        contains_matrix(t->southEast, depth + 1, data, n, ci);
     }
 }
 
@@ -204,6 +230,9 @@ int main()
         std::vector<int> queries(std::max(r, 0));
         for (int i = 0; i < r; i++)
             is >> queries[i];
+        std::string want;
+        is >> want;
+        bool want_matrix = (want == "P");
 
         printf("C %s\n", id.c_str());
         fflush(stdout);
@@ -257,6 +286,11 @@ int main()
                     tree->computeNonEdgeForces(queries[qi], thetas[ti], neg_f, &sum_Q);
                     printf("F %d %d %a %a %a\n", ti, queries[qi], neg_f[0], neg_f[1], sum_Q);
                 }
+            if (want_matrix)
+            {
+                long ci = 0;
+                contains_matrix(tree, 0, data.data(), n, &ci);
+            }
         }
         delete tree;
         printf("END\n");
